@@ -3,6 +3,7 @@
 import MW.Drv.Led
 import MW.Model.Secrets
 import MW.Model.Sign
+import MW.Drv.Vm
 namespace MW.Drv.Sec
 open MW MW.Model
 
@@ -182,6 +183,7 @@ def ksStep (st : St) (op : Secrets.Op) : St × String :=
 
 def step (st : St) (args : List String) : St × String :=
   match args with
+  | "vm" :: rest => (st, Vm.run rest)     -- script VM model (stateless; MW.Drv.Vm)
   | ["wallet", w] =>
     let (ks, o) := Secrets.create st.ks w (defaultPass w) 128
     if o = .ok then ({ st with ks := ks, led := ledAddWallet st.led w }, "ok") else ({ st with ks := ks }, o.render)
